@@ -127,9 +127,9 @@ def audit(ctx, extra_modules=()):
     bad = []
     # parse blocks: "'X' depends on axioms: [a, b]" or "'X' does not depend on any axioms"
     found = {}
-    for m in re.finditer(r"'([^']+)' depends on axioms: \[([^\]]*)\]", out, flags=re.S):
+    for m in re.finditer(r"'([^'\s]+'*)' depends on axioms: \[([^\]]*)\]", out, flags=re.S):
         found[m.group(1)] = {a.strip() for a in m.group(2).replace("\n", " ").split(",") if a.strip()}
-    for m in re.finditer(r"'([^']+)' does not depend on any axioms", out):
+    for m in re.finditer(r"'([^'\s]+'*)' does not depend on any axioms", out):
         found[m.group(1)] = set()
     for n in names:
         full = f"NodisVerif.{ctx.pid}.{n}"
